@@ -63,6 +63,17 @@ DEPENDS = {
 }
 
 
+def assume_scan(prop):
+    """mechanical scan: how many `ctx.assume(` / `ctx.facts.append(` sites (preconditions, ghost-function axioms, trusted library
+    contracts) the contract modules of this property contain -- every one is an assumption, listed by the task that uses it"""
+    out = {}
+    for p in sorted(set(p for p, _ in tasks_for(prop))):
+        src = open(p).read()
+        out[os.path.relpath(p, VERIF)] = {'assume': src.count('ctx.assume('), 'facts.append': src.count('.facts.append(') + src.count('.facts.extend('),
+                                          'summaries (callee contracts)': src.count('it.summaries[') + src.count('summaries.update(')}
+    return out
+
+
 def tasks_for(prop):
     """(module path, task name) of every pyvc task registered for the property, plus the tasks discharging contracts they assume"""
     from pyvc import run as prun
@@ -333,6 +344,7 @@ def main(argv):
         'deductive_tasks': [{'task': r['task'], 'kind': r['kind'], 'paths': r['paths'], 'seconds': r['seconds'],
                              'obligations': len(r['results']), 'unsupported': r['unsupported']} for r in ded],
         'engine_differential': ({'cases_agree_with_cpython': ediff.get('agree'), 'skipped': ediff.get('skipped'), 'disagree': len(ediff.get('disagree', []))} if ediff and not ediff.get('error') else None),
+        'assume_sites_in_contracts': assume_scan(prop),
         'known_findings_reported': sorted(seenk),
         'undecided': undecided,
         'evaluations': int(bcov.get('evaluations') or 0), 'distinct_nontrivial': int(bcov.get('distinct_nontrivial') or 0),
